@@ -544,8 +544,8 @@ func genHTTP(r *Rng) []unit {
 		wire := ""
 		if method == "POST" || method == "PUT" || method == "PATCH" {
 			body = r.Bytes([]int{0, 1, 10, 500, 1023, 1024, 1025, 3000}[r.Intn(8)])
-			if r.Intn(4) == 0 {
-				// chunked
+			if r.Intn(4) == 0 && proto == "HTTP/1.1" {
+				// chunked (HTTP/1.1 only: a 1.0 request cannot be chunked)
 				lines = append(lines, "Transfer-Encoding: chunked")
 				pos := 0
 				for pos < len(body) {
